@@ -22,6 +22,7 @@ type Thread struct {
 	inInit  int
 	name    string
 	timer   bool // environment timer thread: may also never run
+	vc      vclock
 	cancelled bool
 }
 
@@ -69,6 +70,7 @@ func (p *Path) spawn(fr *frame, fn Value, args []Value) *Thread {
 	}
 	th := &Thread{id: len(p.threads), p: p, wake: make(chan struct{}, 1)}
 	p.threads = append(p.threads, th)
+	p.raceSpawn(fr.th, th)
 	p.wg.Add(1)
 	go p.threadMain(th, fn, args)
 	// spawning is a visible operation
@@ -232,6 +234,9 @@ func (p *Path) block(self *Thread, cond func() bool) {
 // memAccess is called on loads/stores through pointers; a preemption point
 // when the executing function is configured for memory-level interleaving.
 func (p *Path) memAccess(fr *frame, cell *Value, write bool) {
+	if p.P.cfg.Race {
+		p.raceAccess(fr, cell, write, "a variable or field")
+	}
 	if fr.info != nil && fr.info.preemptMem && p.multi() {
 		p.preemptPoint(fr.th)
 	}
@@ -276,6 +281,7 @@ func (c *ChanV) canRecv(p *Path) bool {
 }
 
 func (p *Path) doSend(c *ChanV, v Value) {
+	p.raceRelease(p.cur, c)
 	if c.closed {
 		panic(&goPanic{kind: "closed-chan", msg: "send on closed channel"})
 	}
@@ -289,6 +295,7 @@ func (p *Path) doSend(c *ChanV, v Value) {
 }
 
 func (p *Path) doRecv(c *ChanV) (Value, bool) {
+	p.raceAcquire(p.cur, c)
 	if c.env {
 		p.envFires[c]++
 		return c.envGen(p), true
@@ -323,6 +330,7 @@ func (p *Path) chanSend(fr *frame, cv Value, v Value) {
 		return
 	}
 	v = copyVal(v)
+	p.raceRelease(self, c)
 	if c.canSend() {
 		p.doSend(c, v)
 		return
@@ -353,6 +361,7 @@ func (p *Path) chanRecv(fr *frame, cv Value) (Value, bool) {
 	w := &waiter{th: self}
 	c.recvq = append(c.recvq, w)
 	p.block(self, func() bool { return w.done })
+	p.raceAcquire(self, c)
 	if !w.ok {
 		return zero(c.elemT), false
 	}
@@ -368,6 +377,7 @@ func (p *Path) chanClose(fr *frame, cv Value) {
 	if c.closed {
 		panic(&goPanic{kind: "closed-chan", msg: "close of closed channel"})
 	}
+	p.raceRelease(fr.th, c)
 	c.closed = true
 	for _, w := range c.recvq {
 		if w.active() {
@@ -447,6 +457,7 @@ func (p *Path) selectOp(fr *frame, in *ssa.Select) Value {
 		w := &waiter{th: self, isSend: c.send, val: c.val, sel: st, caseIx: i}
 		ws = append(ws, w)
 		if c.send {
+			p.raceRelease(self, c.c)
 			c.c.sendq = append(c.c.sendq, w)
 		} else {
 			c.c.recvq = append(c.c.recvq, w)
@@ -466,5 +477,6 @@ func (p *Path) selectOp(fr *frame, in *ssa.Select) Value {
 		}
 		return result(w.caseIx, nil, false)
 	}
+	p.raceAcquire(self, cases[w.caseIx].c)
 	return result(w.caseIx, w.val, w.ok)
 }
